@@ -114,7 +114,9 @@ func (q Quantity) ToProtoQuantity() *dtpb.Quantity {
 	}
 
 	if q.unit != "" {
+		// the coded form is what From reads back; unit is its human-readable twin
 		res.Unit = fhir.String(q.unit)
+		res.Code = fhir.Code(q.unit)
 	}
 
 	return res
